@@ -181,6 +181,7 @@ pub fn search_len(sub: &str, seed: u64, cases: u64, min_len: usize, max_len: usi
                     }
                     let mut c = col.borrow_mut();
                     c.eval();
+                    breadcrumb(sub, &bytes);
                     match f(&bytes, &mut c) {
                         Ok(()) => Ok(()),
                         Err(fl) => {
@@ -229,6 +230,60 @@ pub fn search_len(sub: &str, seed: u64, cases: u64, min_len: usize, max_len: usi
 }
 
 /// Parallel exhaustive enumeration over `items`.
+// ---------------------------------------------------------------------------------------
+// breadcrumbs: the case each worker is about to judge, kept on disk so that a run that is killed
+// from inside the library under test (allocation failure, abort) still leaves a replayable case
+
+static BREADCRUMBS: std::sync::atomic::AtomicBool = std::sync::atomic::AtomicBool::new(false);
+static BREADCRUMB_SLOT: std::sync::atomic::AtomicUsize = std::sync::atomic::AtomicUsize::new(0);
+thread_local! {
+    static MY_SLOT: std::cell::Cell<usize> = std::cell::Cell::new(usize::MAX);
+}
+
+/// switch breadcrumbs on for the rest of the run (property `id`)
+pub fn enable_breadcrumbs(id: &str) {
+    let dir = format!("{}/replays", crate::paths::verif_root());
+    let _ = std::fs::create_dir_all(&dir);
+    if let Ok(rd) = std::fs::read_dir(&dir) {
+        for e in rd.flatten() {
+            if e.file_name().to_string_lossy().starts_with(&format!(".current-{}-", id)) {
+                let _ = std::fs::remove_file(e.path());
+            }
+        }
+    }
+    BREADCRUMBS.store(true, Ordering::Relaxed);
+}
+
+fn breadcrumb(sub: &str, bytes: &[u8]) {
+    if !BREADCRUMBS.load(Ordering::Relaxed) {
+        return;
+    }
+    let slot = MY_SLOT.with(|s| {
+        if s.get() == usize::MAX {
+            s.set(BREADCRUMB_SLOT.fetch_add(1, Ordering::Relaxed));
+        }
+        s.get()
+    });
+    let id = sub.split('/').next().unwrap_or("").to_uppercase();
+    let path = format!("{}/replays/.current-{}-{}.json", crate::paths::verif_root(), id, slot);
+    let body = format!("{{\"property\":\"{}\",\"sub_check\":\"{}\",\"choice_bytes\":\"{}\",\"message\":\"case in progress when the run was killed\"}}", id, sub, hex::encode(bytes));
+    let _ = std::fs::write(path, body);
+}
+
+/// remove the breadcrumbs of a run that ended normally
+pub fn clear_breadcrumbs(id: &str) {
+    if !BREADCRUMBS.load(Ordering::Relaxed) {
+        return;
+    }
+    if let Ok(rd) = std::fs::read_dir(format!("{}/replays", crate::paths::verif_root())) {
+        for e in rd.flatten() {
+            if e.file_name().to_string_lossy().starts_with(&format!(".current-{}-", id)) {
+                let _ = std::fs::remove_file(e.path());
+            }
+        }
+    }
+}
+
 pub fn enumerate<T: Sync>(
     sub: &str,
     items: &[T],
@@ -251,6 +306,9 @@ pub fn enumerate<T: Sync>(
                         break;
                     }
                     c.eval();
+                    if BREADCRUMBS.load(Ordering::Relaxed) {
+                        breadcrumb(sub, &enc(&items[i]));
+                    }
                     if let Err(fl) = f(&items[i], &mut c) {
                         if fails.len() < 3 {
                             fails.push((fl, enc(&items[i])));
@@ -327,6 +385,7 @@ impl Report {
 
     /// Writes evidence (+ replay files), prints the verdict lines, returns the exit code.
     pub fn finish(mut self) -> i32 {
+        clear_breadcrumbs(&self.id);
         let known = known_findings();
         let mut violations = 0;
         let mut machinery = 0;
